@@ -448,7 +448,13 @@ C18_RULE = ('scenarios as for C17 but every address gets unique sentinel strings
             'GeoIP city / region / country / continent / coordinates (seeded resolver cache and GeoIP lookup); after every frame the harness re-draws the same '
             'state in every view (table, hop details, chart, map, help, settings x 7 tabs) x address mode (ip, host, both) x AS mode (6) x GeoIP mode (4) x '
             'max_addrs x 4 sizes and searches the cells of each for the sentinels of hops with ttl <= n and for the source address; the model predicts the privacy '
-            'value after every op and H/N/V per row at every frame. non-trivial = privacy in force with at least one answering hop hidden; distinct = distinct scenario line')
+            'value after every op and H/N/V per row at every frame. TEXT of the frames: after every frame the same state is also drawn on reference screens '
+            '(250 columns, every row visible, columns #/Host/Loss%): the hop table as the application state has it, the hop table in a pseudo-random cell of address mode (3) x '
+            'AS off / 6 AS modes x GeoIP mode (4) x max_addrs (none,1,2,3) x hop details x selected row, the map with a pseudo-random selection and the header; read off them: the text of the '
+            'Host cell of EVERY row (all lines) with the row height, title and text of the map info panel, the number of map pins and whether a selection box is drawn, the target line; '
+            'the extracted Tui/Views.v (through Tui/Frames.v, from the state of Tui/App.v plus the hop addresses / counts recorded in the frame op) must print the same text; resolver answers cover '
+            'Resolved with / without AS info, empty ASN, NotFound with / without AS info, Failed, Pending; GeoIP located / without coordinates / absent. '
+            'non-trivial = privacy in force with at least one answering hop hidden; distinct = distinct scenario line')
 
 
 def c18_nontrivial(inp, outp):
@@ -673,4 +679,15 @@ PROPS['C03'] = dict(
     compare=lambda inp, a, b: compare_recv(inp, a, b) if is_recv_line(inp) else _c03b['compare'](inp, a, b),
     nontrivial=lambda inp, o: recv_decoded(inp, o) if is_recv_line(inp) else _c03b['nontrivial'](inp, o),
     rule=_c03b['rule'] + ' || foreign quotations through the real receive path (mode recv): another destination / protocol / port / trace identifier / payload marker, and a foreign payload quoted only up to a prefix of the marker, must fail the acceptance test',
+)
+
+
+# ---- the wait itself: the real platform socket (net/platform/unix.rs SocketImpl through the hook re-export) on loopback datagram sockets,
+# idle / under a stream of signals / with a datagram arriving (mode platform); the model is Net/Platform.v (select result -> is_readable)
+_c09p = PROPS['C09']
+PROPS['C09'] = dict(
+    _c09p, modes=_c09p['modes'] + [('hcore', 'platform')],
+    compare=lambda inp, a, b: (a == b) if inp.startswith('platform ') else _c09p['compare'](inp, a, b),
+    nontrivial=lambda inp, o: True if inp.startswith('platform ') else _c09p['nontrivial'](inp, o),
+    rule=_c09p['rule'] + ' || the real SocketImpl::is_readable on loopback sockets (mode platform): idle waits, waits interrupted by a stream of signals (handler without SA_RESTART: select returns EINTR), a datagram arriving; an interrupted wait must read "nothing", never an error',
 )
